@@ -181,7 +181,7 @@ def strings_upto(n, alphabet="AB"):
 
 
 def cases(tier, seed):
-    L = 4 if tier == "quick" else 5
+    L = 4 if tier == "quick" else 6
     subjects = list(strings_upto(L))
     pats = list(strings_upto(L))
     for i, s in enumerate(subjects):
